@@ -112,30 +112,23 @@ func c11L1(r *Run, rep *core.Report) {
 		want := map[string]string{"Store": "arg,false", "LoadAndStore": "arg,false", "LoadOrStore": "arg,false", "LoadOrCompute": "call,false", "LoadAndDelete": "old,true", "Delete": "old,true"}
 		for name, w := range want {
 			wf := mm.Methods[name]
-			core.Instrs(wf, func(in ssa.Instruction) {
-				c, ok := in.(ssa.CallInstruction)
-				if !ok || core.Callee(c) != mm.Core {
-					return
+			c, _ := coreCallOf(mm, wf, 0)
+			if c == nil {
+				rep.Fail("C11.L1", fn(wf)+" adapter contract", r.P.Pos(wf.Pos()), "wrapper does not reach the compute core")
+				continue
+			}
+			for i, a := range c.Common().Args {
+				if i >= len(mm.Core.Params) || !isFuncTyped(mm.Core.Params[i].Type()) {
+					continue
 				}
-				for i, a := range c.Common().Args {
-					if i >= len(mm.Core.Params) || !isFuncTyped(mm.Core.Params[i].Type()) {
-						continue
-					}
-					var cl *ssa.Function
-					switch x := core.StripConv(a).(type) {
-					case *ssa.MakeClosure:
-						cl = x.Fn.(*ssa.Function)
-					case *ssa.Function:
-						cl = x
-					}
-					if cl == nil {
-						rep.Undecided("C11.L1", fn(wf)+" adapter contract", r.P.InstrPos(in), "adapter is not a function literal")
-						continue
-					}
-					got := adapterSummary(cl)
-					rep.Check(got == w, "C11.L1", fn(wf)+" adapter contract", r.P.Pos(cl.Pos()), "adapter returns ("+w+")", "adapter returns ("+got+"), the operation's contract is ("+w+")")
+				cl, _ := funcOfValue(a, 0)
+				if cl == nil {
+					rep.Undecided("C11.L1", fn(wf)+" adapter contract", r.P.InstrPos(c.(ssa.Instruction)), "adapter is not a function literal")
+					continue
 				}
-			})
+				got := adapterSummary(cl)
+				rep.Check(got == w, "C11.L1", fn(wf)+" adapter contract", r.P.Pos(cl.Pos()), "adapter returns ("+w+")", "adapter returns ("+got+"), the operation's contract is ("+w+")")
+			}
 		}
 	}
 	rep.MinCount("C11.L1", "explored core exits", nExits, 30)
